@@ -45,8 +45,25 @@ func isGoatFunc(f string) bool {
 
 // ownerFrame is the first frame of an access stack that belongs neither to the standard
 // library nor to a third-party module: the code whose memory access this is.
+//
+// One exception: the harness transport reading or cloning an envelope inside a Write or Read that
+// library code called (wire.(*End).Write, wire.(*Tap).add, ...) is the transport doing what the
+// RpcReadWriter API lets every transport do - look at the envelope while the call lasts. Such an
+// access is attributed to the library frame that made the call: if it conflicts with another
+// library access, the library shared an envelope it had handed to a transport.
 func ownerFrame(s raceStack) string {
-	for _, f := range s.funcs {
+	for i, f := range s.funcs {
+		if strings.HasPrefix(f, "goatverif/wire.(*End).Write") || strings.HasPrefix(f, "goatverif/wire.(*End).Read") || strings.HasPrefix(f, "goatverif/wire.(*Tap).add") {
+			for _, g := range s.funcs[i+1:] {
+				if isGoatFunc(g) {
+					return g
+				}
+				if strings.HasPrefix(g, "goatverif/") && !strings.HasPrefix(g, "goatverif/wire.") {
+					break
+				}
+			}
+			return f
+		}
 		if isGoatFunc(f) || strings.HasPrefix(f, "goatverif/") || strings.HasPrefix(f, "main.") {
 			return f
 		}
